@@ -268,6 +268,16 @@ func genMuxCfg(r *Run, g *muxGen) *muxCfg {
 	c.partMin = Pick(T, 50*time.Millisecond, 100*time.Millisecond, 200*time.Millisecond, 200*time.Millisecond,
 		333*time.Millisecond, 500*time.Millisecond, time.Second, 2*time.Second)
 	c.segMaxSize = 50 * 1024 * 1024
+	if g.constLeading {
+		// PartMinDuration 50 ms .. 2 s on the 5 ms grid and off it
+		c.partMin = time.Duration(T.Range(10, 400)) * 5 * time.Millisecond
+		if T.Chance(1, 3) {
+			c.partMin += time.Duration(T.Range(1, 4)) * time.Millisecond
+		}
+	}
+	if g.bigPayloads {
+		c.segMaxSize = uint64(Pick(T, 300, 1000, 4000, 20000, 100000))
+	}
 	c.disk = T.Chance(1, 3)
 	return c
 }
@@ -408,6 +418,13 @@ func genVideoCalls(T *Tape, g *muxGen, c *muxCfg, ts *trackSpec, _ []*writeCall,
 	dmode := T.Intn(3) // 0 constant, 1 jitter, 2 arbitrary
 	if g.constLeading {
 		dmode = 0
+		// all common frame rates 1..120 fps at 90 kHz, incl. the 1001-based 29.97
+		fpsList := []int64{1, 2, 5, 10, 12, 15, 20, 24, 25, 30, 48, 50, 60, 90, 100, 120}
+		if T.Chance(1, 6) {
+			base = 3003
+		} else {
+			base = 90000 / fpsList[T.Intn(len(fpsList))]
+		}
 	}
 	// key frame pattern
 	gop := Pick(T, 1, 2, 3, 5, 10, 15, 30, 60)
@@ -479,6 +496,9 @@ func genVideoCalls(T *Tape, g *muxGen, c *muxCfg, ts *trackSpec, _ []*writeCall,
 			inband = key // parameters travel in every key frame
 		}
 		size := Pick(T, 10, 16, 40, 100, 300)
+		if g.bigPayloads {
+			size = bigSize(T, c)
+		}
 		u := &unit{track: ts.id, idx: len(ts.units), dts: dts, pts: dts, ra: key, params: p, carries: inband}
 		u.data, u.payload = buildVideoUnit(ts.kind, ts.id, u.idx, key, p, inband, size)
 		ts.units = append(ts.units, u)
@@ -514,6 +534,23 @@ func genVideoCalls(T *Tape, g *muxGen, c *muxCfg, ts *trackSpec, _ []*writeCall,
 	}
 }
 
+// bigSize draws payload sizes that straddle SegmentMaxSize once a few units share a segment.
+func bigSize(T *Tape, c *muxCfg) int {
+	m := int(c.segMaxSize)
+	switch T.Intn(40) {
+	case 0:
+		return m / 2
+	case 1:
+		return m / 3
+	case 2:
+		return m/4 + T.Intn(16)
+	case 3:
+		return max(10, m-T.Range(0, 40))
+	default:
+		return 10 + T.Intn(max(1, m/30))
+	}
+}
+
 func genAACCalls(T *Tape, g *muxGen, c *muxCfg, ts *trackSpec, n int, t0 float64, out *[]*writeCall) {
 	pts := int64(t0 * float64(ts.clock))
 	gapMode := T.Intn(3) // 0 none, 1 small jitter, 2 occasional gaps
@@ -529,6 +566,9 @@ func genAACCalls(T *Tape, g *muxGen, c *muxCfg, ts *trackSpec, n int, t0 float64
 		cl := &writeCall{track: ts, pts: pts}
 		for j := 0; j < k; j++ {
 			size := Pick(T, 10, 20, 60, 200)
+			if g.bigPayloads {
+				size = min(bigSize(T, c), 8000) // an ADTS frame cannot carry more than 8191 bytes
+			}
 			u := &unit{track: ts.id, idx: len(ts.units), dts: pts + int64(j)*1024, pts: pts + int64(j)*1024, ra: true}
 			au := taggedPayload(ts.id, u.idx, size)
 			u.data = [][]byte{au}
@@ -569,7 +609,11 @@ func genOpusCalls(T *Tape, g *muxGen, c *muxCfg, ts *trackSpec, n int, t0 float6
 				cfg = T.Intn(32)
 			}
 			u := &unit{track: ts.id, idx: len(ts.units), dts: p, pts: p, ra: true}
-			pkt, d := opusPacket(cfg, ts.id, u.idx, Pick(T, 10, 30, 80))
+			osz := Pick(T, 10, 30, 80)
+			if g.bigPayloads {
+				osz = bigSize(T, c)
+			}
+			pkt, d := opusPacket(cfg, ts.id, u.idx, osz)
 			u.data = [][]byte{pkt}
 			u.payload = pkt
 			ts.units = append(ts.units, u)
@@ -599,6 +643,7 @@ type muxWorld struct {
 	encMu   sync.Mutex
 	pending []*httpResp
 	closed  bool
+	errCall *writeCall
 
 	// observation state (filled by observe)
 	obs *muxObs
